@@ -179,6 +179,15 @@ class Opaque(Atom):
         return f"<{self.tag}>"
 
 
+class OrA(Opaque):
+    """x | y whose bit fields may overlap: not a sum, but exactly evaluable at a point"""
+    __slots__ = ("x", "y")
+
+    def __init__(self, x: "Lin", y: "Lin", lo: Num = None, hi: Num = None):
+        Opaque.__init__(self, f"({x}) | ({y})", lo, hi)
+        self.x, self.y = x, y
+
+
 class Lin:
     __slots__ = ("const", "terms", "_key")
 
@@ -246,20 +255,28 @@ class Lin:
                     out.append(a.sym)
                 elif isinstance(a, (ModA, DivA, FltDivA)):
                     rec(a.lin)
+                elif isinstance(a, OrA):
+                    rec(a.x)
+                    rec(a.y)
                 elif isinstance(a, Fn):
                     for x in a.args:
                         rec(x)
         rec(self)
         return out
 
-    def has_opaque(self) -> bool:
-        """True if an Opaque atom occurs anywhere in the form (also inside %, //, function arguments)"""
+    def has_opaque(self, evaluable_ok: bool = False) -> bool:
+        """True if an Opaque atom occurs anywhere in the form (also inside %, //, function arguments).  With evaluable_ok an
+        overlapping `x | y` (OrA) whose operands are modelled does not count: it is not a sum of fields, but a witness can evaluate it."""
         for a, _ in self.terms:
+            if isinstance(a, OrA):
+                if not evaluable_ok or a.x.has_opaque(True) or a.y.has_opaque(True):
+                    return True
+                continue
             if isinstance(a, Opaque):
                 return True
-            if isinstance(a, (ModA, DivA, FltDivA)) and a.lin.has_opaque():
+            if isinstance(a, (ModA, DivA, FltDivA)) and a.lin.has_opaque(evaluable_ok):
                 return True
-            if isinstance(a, Fn) and any(x.has_opaque() for x in a.args):
+            if isinstance(a, Fn) and any(x.has_opaque(evaluable_ok) for x in a.args):
                 return True
         return False
 
@@ -615,7 +632,7 @@ def bor(x: Lin, y: Lin) -> Tuple[Lin, Optional[str]]:
         lo1, hi1 = x.rng()
         lo2, hi2 = y.rng()
         hi = None if hi1 is None or hi2 is None else (1 << max(hi1.bit_length(), hi2.bit_length())) - 1
-        return Lin.of(Opaque(f"({x}) | ({y})", 0 if (lo1 is not None and lo1 >= 0 and lo2 is not None and lo2 >= 0) else None, hi)), \
+        return Lin.of(OrA(x, y, 0 if (lo1 is not None and lo1 >= 0 and lo2 is not None and lo2 >= 0) else None, hi)), \
             "operands are not sums of non-negative bit fields"
     for a_lo, a_hi, ad in ox:
         for b_lo, b_hi, bd in oy:
@@ -625,7 +642,7 @@ def bor(x: Lin, y: Lin) -> Tuple[Lin, Optional[str]]:
                 lo1, hi1 = x.rng()
                 lo2, hi2 = y.rng()
                 hi = None if hi1 is None or hi2 is None else (1 << max(hi1.bit_length(), hi2.bit_length())) - 1
-                return Lin.of(Opaque(f"({x}) | ({y})", 0, hi)), \
+                return Lin.of(OrA(x, y, 0, hi)), \
                     f"bits [{max(a_lo, b_lo)}, {min(ah, bh)}) of field {ad} and of field {bd} overlap"
     return x + y, None
 
